@@ -785,6 +785,19 @@ impl Plist {
     }
 }
 
+/*
+ * Verification hook (cfg pkgsrc_verif only): expose the parsed entries so that
+ * an external harness can compare them with a formal model.  Never compiled in
+ * normal builds.
+ */
+#[cfg(pkgsrc_verif)]
+impl Plist {
+    /// All parsed entries, in order.
+    pub fn verif_entries(&self) -> &[PlistEntry] {
+        &self.entries
+    }
+}
+
 #[cfg(test)]
 mod tests {
     use super::*;
